@@ -67,6 +67,8 @@ func (in *Interp) fsm() *fsModel {
 }
 
 func (in *Interp) fsStep(what string) {
+	// every file-system mutation is a scheduling point (two goroutines storing the same node)
+	in.yield("fs")
 	f := in.fsm()
 	if f.crashAt >= 0 && f.steps == f.crashAt {
 		f.crashAt = -1
